@@ -50,6 +50,7 @@ ARRAY_FAULTS = ["field_pm1", "field_from_other_row", "field_zero", "field_neg1",
                 "exchange_ids", "relabel_identical", "move_bin", "new_bin_gap",
                 "n_bins_off", "n_bins_nonint", "wrong_dtype", "wrong_shape"]
 FAULT_KINDS = TEXT_FAULTS + BENIGN + ARRAY_FAULTS + [
+    "caller_threads_interleaved",
     "same_name_other_instance"]
 CLAUSES = ["shape", "id", "bin-range", "coords", "outside", "size", "overlap",
            "multiplicity", "bin-gap", "n_bins"]
@@ -68,9 +69,13 @@ CHUNK = 16
 def plan(tier: str) -> list:
     if tier == "quick":
         return [{"name": "nofault", "n": 3000, "faults": False, "big": False},
-                {"name": "fault", "n": 27000, "faults": True, "big": False}]
+                {"name": "fault", "n": 27000, "faults": True, "big": False},
+                {"name": "threads", "n": 1500, "faults": True, "big": False,
+                 "threads": True}]
     return [{"name": "nofault", "n": 60000, "faults": False, "big": True},
-            {"name": "fault", "n": 1200000, "faults": True, "big": True}]
+            {"name": "fault", "n": 1200000, "faults": True, "big": True},
+            {"name": "threads", "n": 60000, "faults": True, "big": False,
+             "threads": True}]
 
 
 def warmup() -> None:
@@ -80,8 +85,44 @@ def warmup() -> None:
 
 # ------------------------------------------------------------------ generation
 
+def _generate_threads(rng: random.Random, batch: dict) -> dict:
+    """Two caller threads validating live packings at the same time: with
+    one shared PackingSpace (validate keeps no state) or with an instance
+    and a space each (possibly of different sizes)."""
+    def array_case(inst):
+        while True:
+            c = generate(rng, {**batch, "threads": False}, depth=1, inst=inst)
+            if c["store"] == "array":
+                c.pop("inst", None)
+                return c
+    while True:
+        inst_a = packgen.gen_instance(rng, big=False, shipped_p=0.0,
+                                      single_digit_bias=0.45)
+        if sum(it[2] for it in inst_a["items"]) <= 24:
+            break
+    share = rng.random() < 0.6
+    inst_b = None
+    if not share:
+        while True:
+            inst_b = packgen.gen_instance(rng, big=False, shipped_p=0.0,
+                                          single_digit_bias=0.45)
+            if sum(it[2] for it in inst_b["items"]) <= 24:
+                break
+    threads = []
+    for inst in (inst_a, inst_b or inst_a):
+        threads.append({"cases": [array_case(inst) for _ in range(
+            rng.choice([1, 2, 3]))], "picks": [
+            [rng.random(), rng.random(), rng.random()]
+            for _ in range(rng.choice([1, 2, 4, 8]))]})
+    return {"inst": inst_a, "inst_b": inst_b, "threads": threads,
+            "x": [], "encoder": 1, "legal_edits": [], "store": "array",
+            "faults": [], "inst_from_setup": False}
+
+
 def generate(rng: random.Random, batch: dict, depth: int = 0,
              inst: dict | None = None) -> dict:
+    if batch.get("threads") and depth == 0:
+        return _generate_threads(rng, batch)
     if inst is None:
         inst = packgen.gen_instance(rng, big=batch.get("big", False),
                                     shipped_p=0.06, single_digit_bias=0.45)
@@ -459,9 +500,107 @@ def _write_log(path: str, space, y, inst_name: str) -> None:
                 txt.write("1;2;3;4")
 
 
+def _execute_threads(doc: dict) -> dict:
+    import numpy as np
+    from moptipyapps.binpacking2d.packing_space import PackingSpace
+    res = core.new_result()
+    name = packgen.scenario_name(doc)
+    pre = core.Preempt((os.sep + "moptipyapps" + os.sep, ))
+    insts = [packgen.build_instance(doc["inst"], name)]
+    insts.append(insts[0] if doc.get("inst_b") is None
+                 else packgen.build_instance(doc["inst_b"], name + "b"))
+    idocs = [doc["inst"], doc.get("inst_b") or doc["inst"]]
+
+    def prepare(ti: int, space):
+        inst = insts[ti]
+        W, H = int(inst.bin_width), int(inst.bin_height)
+        items = [[int(v) for v in row] for row in idocs[ti]["items"]]
+        info = np.iinfo(inst.dtype)
+        lo, hi = int(info.min), int(info.max)
+        todo = []
+        for case in doc["threads"][ti]["cases"]:
+            rows, nb = orc.bl_decode(W, H, items, case["x"],
+                                     int(case["encoder"]))
+            for edit in case["legal_edits"]:
+                rows, nb = apply_legal(rows, nb, W, H, edit)
+            rws, meta = [list(r) for r in rows], {}
+            for f in case["faults"]:
+                if f["kind"] in ARRAY_FAULTS:
+                    _, nb = apply_array_fault(rws, nb, meta, items, W, H, lo,
+                                              hi, f)
+            if meta:      # wrong dtype / short shape: left to the histories
+                rws, nb = [list(r) for r in rows], nb if type(nb) is int \
+                    else len({q[1] for q in rows})
+            bad = orc.infeasibility(W, H, items, rws, nb)
+            todo.append((rws, nb, bad))
+
+        def body():
+            out = []
+            for rws, nb, _ in todo:
+                y = space.create()
+                y[:, :] = np.array(rws, dtype=np.int64).astype(inst.dtype)
+                y.n_bins = nb
+                try:
+                    space.validate(y)
+                    out.append(True)
+                except Exception:  # noqa: BLE001
+                    out.append(False)
+            return out
+        return body, todo
+
+    def make_bodies():
+        shared = PackingSpace(insts[0])
+        sp = [shared, shared if doc.get("inst_b") is None
+              else PackingSpace(insts[1])]
+        return [prepare(0, sp[0]), prepare(1, sp[1])]
+    points = []
+    for (body, _), th in zip(make_bodies(), doc["threads"]):
+        _, table = pre.profile(body)
+        points.append(core.Preempt.pick_points(table, th["picks"]))
+    pairs = make_bodies()
+    got, switches = pre.run([b for b, _ in pairs], points)
+    core.bump(res["faults"], "caller_threads_interleaved")
+    if doc.get("inst_b") is None:
+        core.bump(res["probes"], "threads_share_packing_space")
+    if switches >= 2:
+        core.bump(res["probes"], "thread_switches>=2")
+    res["events"].append(["threads", switches])
+    for ti, ((_, todo), g) in enumerate(zip(pairs, got)):
+        if isinstance(g, BaseException):
+            core.violation(res, "validate-raised-unexpectedly",
+                           f"thread {ti}: {type(g).__name__}: {g}")
+            break
+        for (rws, nb, bad), accepted in zip(todo, g):
+            res["ops"] += 1
+            res["states"].append(f"threads|{tuple(bad)}|{accepted}")
+            if accepted and bad:
+                core.violation(
+                    res, f"accepts-infeasible:{bad[0]}",
+                    f"validate accepted a packing that violates {bad} while "
+                    f"another thread validated ({switches} switches, shared "
+                    f"space: {doc.get('inst_b') is None}): rows={rws} "
+                    f"n_bins={nb!r} inst={idocs[ti]}", failing=list(bad))
+                break
+            if not accepted and not bad:
+                core.violation(
+                    res, "rejects-feasible",
+                    f"validate rejected a feasible packing while another "
+                    f"thread validated ({switches} switches, shared space: "
+                    f"{doc.get('inst_b') is None}): rows={rws} n_bins={nb!r} "
+                    f"inst={idocs[ti]}")
+                break
+        if res["violation"] is not None:
+            break
+    res["sim_time"] += 1.0
+    res["nontrivial"] = switches >= 1
+    return res
+
+
 def execute(doc: dict) -> dict:
     """Optionally followed by a twin: another instance with the SAME name and
     its own PackingSpace."""
+    if doc.get("threads"):
+        return _execute_threads(doc)
     name = packgen.scenario_name(doc)
     res = _execute_one(doc, name)
     twin = doc.get("twin")
@@ -787,6 +926,14 @@ def _run_case(doc, case, ci, res, inst, space, W, H, items, n_items, lo, hi):
 # ------------------------------------------------------------------ shrinking
 
 def reductions(doc: dict):
+    if doc.get("threads"):
+        for i, th in enumerate(doc["threads"]):
+            for key, mn in (("picks", 0), ("cases", 1)):
+                for cand in core.list_deletions(th[key], mn):
+                    ths = [dict(t) for t in doc["threads"]]
+                    ths[i][key] = cand
+                    yield {**doc, "threads": ths}
+        return
     if doc.get("twin") is not None:
         yield {k: v for k, v in doc.items() if k != "twin"}
         for cand in reductions(doc["twin"]):
